@@ -1382,6 +1382,8 @@ impl LsmTree {
         if compaction.inputs().count() == 1 {
             // SAFETY(rescrv): This is ensured by count in a good implementation.
             let input = compaction.inputs().next().unwrap();
+            #[cfg(rescrv_blue_verif)]
+            crate::verif::yield_point("compaction:move");
             return self.apply_moving_compaction(compaction, input);
         }
         if compaction.top_level() {
